@@ -123,7 +123,7 @@ pub fn spec(id: &str) -> Option<PropSpec> {
             families: vec![(Family::C10, 50), (Family::C10C, 50)],
             quick_runs: 30_000,
             thorough_runs: 3_000_000,
-            rule: "two levels. Codec level: a stream of 1..4 valid packets (payloads 0..20000 bytes) decoded in one read and under 2..4 fragmentations for min chunk 0/1/4/1024/32768: same packets and payload bytes, each PUBLISH announced once with its declared size, pieces add up to it, exactly one final piece, no non-final non-empty piece below the minimum, nothing leaks into the next packet, valid streams decode completely. Connection level (real dispatcher, gated handlers): 1..4 publishes with payload sizes around chunk and varint boundaries (0..300 KiB) delivered in one piece, byte at a time, around packet boundaries or in random cuts, max payload buffer 64 B..128 KiB, read buffer 1..64 KiB, readers eager / lazy (paced by the simulator) / abandoning: the handler receives exactly the bytes sent, in order; distinct = abstract history signature; non-trivial = a payload was delivered to the decoder or the handler in more than one piece",
+            rule: "two levels. Codec level: a stream of 1..4 valid packets (payloads 0..20000 bytes) decoded in one read and under 2..4 fragmentations for min chunk 0/1/4/1024/32768: same packets and payload bytes, each PUBLISH announced once with its declared size, pieces add up to it, exactly one final piece, no non-final non-empty piece below the minimum, nothing leaks into the next packet, valid streams decode completely. Connection level (real dispatcher, gated handlers): 1..4 publishes with payload sizes around chunk and varint boundaries (0..300 KiB) delivered in one piece, byte at a time, around packet boundaries or in random cuts, max payload buffer 64 B..128 KiB, read buffer 1..64 KiB, readers eager (read_all at once) / late (read_all when the simulator allows, possibly after every piece has arrived) / lazy (read() piece by piece, paced by the simulator) / abandoning: the handler receives exactly the bytes sent, in order; distinct = abstract history signature; non-trivial = a payload was delivered to the decoder or the handler in more than one piece",
             nontrivial: nt_c10,
             assumptions: base,
         },
@@ -260,10 +260,10 @@ pub fn spec(id: &str) -> Option<PropSpec> {
         "C19" => PropSpec {
             id: "C19",
             level: "exploration",
-            families: vec![(Family::C19, 100)],
+            families: vec![(Family::C19, 75), (Family::C19W, 25)],
             quick_runs: 24_000,
             thorough_runs: 2_000_000,
-            rule: "server roles, plain v3 / v5 server or the combined (version sniffing) server in front of both. First packet: a valid CONNECT (keep-alive 0 / 10 / 60000), any other packet type, CONNECT with an unknown protocol name (MQTX, MQIsdp, mqtt, empty) or level (0, 3, 6, 255) or the reserved connect flag, handshake service refusing (every refusal code) / failing / answering slowly (gated); 1..2 small publishes are pipelined right behind it; the stream is delivered in one piece, byte at a time or in random cuts. After an accepted CONNECT one limit is probed at and just beyond its negotiated value: inbound maximum packet size (configured, or MQTT 5 handshake override), maximum QoS (configured / override), topic alias maximum (configured / override), receive maximum (configured / override, handlers held). Oracle: no publish/protocol handler before the handshake service accepted the CONNECT, none at all otherwise; invalid first packets never reach the handshake service and end the connection; a refusal is preceded by a CONNACK with the refusing code; the CONNECT is handled by the service of its protocol level with its fields intact and pipelined packets are handled after acceptance; MQTT 5 CONNACK announces receive maximum, maximum QoS, topic alias maximum, maximum packet size and an imposed keep-alive as in force; the probe at the limit is handled, the one beyond it is refused with a protocol error. Keep-alive 1.5x and the send window are judged by C20 and C05; distinct = abstract history signature; non-trivial = the first packet was not a plain accepted CONNECT, or a limit probe was delivered",
+            rule: "server roles, plain v3 / v5 server or the combined (version sniffing) server in front of both. First packet: a valid CONNECT (keep-alive 0 / 10 / 60000), any other packet type, CONNECT with an unknown protocol name (MQTX, MQIsdp, mqtt, empty) or level (0, 3, 6, 255) or the reserved connect flag, handshake service refusing (every refusal code) / failing / answering slowly (gated); 1..2 small publishes are pipelined right behind it; the stream is delivered in one piece, byte at a time or in random cuts. After an accepted CONNECT one limit is probed at and just beyond its negotiated value: inbound maximum packet size (configured, or MQTT 5 handshake override), maximum QoS (configured / override), topic alias maximum (configured / override), receive maximum (configured / override, handlers held). Oracle: no publish/protocol handler before the handshake service accepted the CONNECT, none at all otherwise; invalid first packets never reach the handshake service and end the connection; a refusal is preceded by a CONNACK with the refusing code; the CONNECT is handled by the service of its protocol level with its fields intact and pipelined packets are handled after acceptance; MQTT 5 CONNACK announces receive maximum, maximum QoS, topic alias maximum, maximum packet size and an imposed keep-alive as in force; the probe at the limit is handled, the one beyond it is refused with a protocol error. A quarter of the runs use C05's outbound workload on server roles with every combination of configured max_send, handshake override and the peer's Receive Maximum: QoS1/2 publishes on the wire and not finally acknowledged never exceed min(configured or overridden, peer's Receive Maximum). The keep-alive factor 1.5 is judged by C20; distinct = abstract history signature; non-trivial = the first packet was not a plain accepted CONNECT, or a limit probe was delivered",
             nontrivial: nt_c19,
             assumptions: base,
         },
